@@ -325,10 +325,14 @@ def drive(odfdo, A, spec, pool):
             except Exception as e:
                 impl, found = (classify(e), repr(e)), None
             hint = None
-            if impl[0] == 'done' and op[2] == 'common' and ret is not None:
+            if impl[0] == 'done' and ret is not None:
+                # F96 class: the style was put into styles.xml (any family - common style, master page, default font face
+                # ... - any flag combination) and content.xml, which Document.get_style searches first, holds a style with
+                # the same family and name
                 rn = A.name(ret)
-                if any(e[2] == rn and e[1] == style_abs[1] and e[0] in (style_abs[0], t['tag_id']['style:default-style'])
-                       for sl in (pre[3], pre[1]) if sl for e in sl):
+                in_styles_xml = any(post[k] and post[k][-1][3] == style_abs[3] and post[k][-1][2] == rn for k in (4, 5, 6, 7))
+                if in_styles_xml and any(e[2] == rn and e[1] == style_abs[1] and e[0] in (style_abs[0], t['tag_id']['style:default-style'])
+                                         for sl in (post[3], post[1]) if sl for e in sl):
                     hint = 'shadowed'
             steps.append((si, dict(kind='insert', pre=pre, style=style_abs, name_arg=A.name(op[3]) if op[3] else None,
                                    automatic=kw['automatic'], default=kw['default'], impl=impl, found=found, hint=hint)))
